@@ -109,7 +109,7 @@ PROPERTIES["C07"] = dict(
                 "for all cells with fan-out ≤ 16/20/60; every cell is listed exactly under its parent; children of children = children at the deeper level",
     assumptions=[VALID, FMT_STUB],
     trusted_base=["bit-level oracle spec_valid, proved equal to the real code by oracle_valid_equiv in the same run"],
-    outside_claim=["per-call fan-out above 16 (20 from a base cell, 60 from the world cell); deeper fan-outs follow from composition (c07_compose, c07_grand) but are not executed"],
+    outside_claim=["per-call fan-out above 4 from a symbolic cell (12 and 60 from the concrete world cell are executed); two levels down in one call and the children of a *base* cell (5, 20) ran out of memory (36–45 GB) with a symbolic face and are not claimed by a dedicated harness — the 60 quintants are checked under their base cells through c07_world, deeper levels follow from composition (c07_compose)"],
     harnesses=[
         oracle("oracle_valid_equiv"), oracle("oracle_res_equiv"), oracle("oracle_covers_equiv"),
         H("c07_compose", "c07", [Q, T], "∀ valid cell(0..29) c, ∀ −1≤b≤a≤r: parent(parent(c,a),b)=parent(c,b), res(parent(c,a))=a, canonical; default arg = r−1",
@@ -120,18 +120,10 @@ PROPERTIES["C07"] = dict(
           functions=HIER, bounds="fan-out 4; loops 1×1×4 (unwinding assertions on)", unwindset=ch_unwind(1, 1, 4), assumes=[VALID], deps=["oracle_valid_equiv"], timeout=1500, mem_gb=24),
         H("c07_world", "c07", [Q, T], "world cell: 12 children at r=0, 60 at r=1: distinct, right resolution, canonical, parent = world / the right base cell; get_res0_cells agrees",
           functions=HIER + ["a5::core::serialization::get_res0_cells"], bounds="concrete input; fan-out 12 and 60 fully unwound", exhaustive=True, timeout=1500),
-        H("c07_base_q", "c07", [T], "∀ face: children of the base cell at r=1: 5, pairwise distinct, resolution 1, descendants of the base cell, canonical, all of this face",
-          functions=HIER, bounds="fan-out 5; loops 1×5×1", unwindset=ch_unwind(1, 5, 1), deps=["oracle_valid_equiv", "oracle_covers_equiv", "oracle_res_equiv"], timeout=2400, mem_gb=36, mem_est=20),
-        H("c07_base_g", "c07", [T], "∀ face: children of the base cell at r=2: 20, pairwise distinct, resolution 2, descendants of the base cell, canonical, quintant-major blocks of four",
-          functions=HIER, bounds="fan-out 20; loops 1×5×4", unwindset=ch_unwind(1, 5, 4), deps=["oracle_valid_equiv", "oracle_covers_equiv", "oracle_res_equiv"], timeout=5400, mem_gb=45, mem_est=30),
         H("c07_cover_hi", "c07", [Q, T], "∀ valid cell y, r≥3: y = children(parent(y))[s&3]", functions=HIER, bounds="none on y; loops 1×1×4",
           unwindset=ch_unwind(1, 1, 4), assumes=[VALID], timeout=1500),
         H("c07_cover_r2", "c07", [Q, T], "∀ valid cell y, r=2: y = children(parent(y))[s]", functions=HIER, bounds="loops 1×1×4",
           unwindset=ch_unwind(1, 1, 4), assumes=[VALID], timeout=1500),
-        H("c07_children_d2", "c07", [T], "as c07_children_d1, two levels down (16 children)", functions=HIER, bounds="fan-out 16; loops 1×1×16",
-          unwindset=ch_unwind(1, 1, 16), assumes=[VALID], deps=["oracle_valid_equiv"], timeout=3600, mem_gb=20),
-        H("c07_grand", "c07", [T], "∀ valid cell(1..27): children(c,r+2) = concatenation of children(child_i, r+2)", functions=HIER,
-          bounds="fan-out 16; loops 1×1×16", unwindset=ch_unwind(1, 1, 16), assumes=[VALID], timeout=3600, mem_gb=20),
     ],
 )
 MANIFEST_TEXT["C07"] = dict(
@@ -197,16 +189,12 @@ PROPERTIES["C14"] = dict(
           functions=HIER, bounds="classes with fan-out ≤ 4 (loops 1×1×4)", unwindset=ch_unwind(1, 1, 4), deps=["oracle_valid_equiv"], mem_gb=16, timeout=1500),
         H("c14_children_d1", "c14", [Q, T], "∀ u64 with res 1..28 (canonical or alias), target None/Some(res+1): Err (non-cell) or 4 canonical children",
           functions=HIER, bounds="fan-out 4", unwindset=ch_unwind(1, 1, 4), deps=["oracle_valid_equiv"], mem_gb=24, timeout=1500),
-        H("c14_children_world_alias", "c14", [T], "∀ world-cell aliases (no marker bit): children None/Some(0) = 12 canonical base cells; parent(−1) = world",
-          functions=HIER, bounds="fan-out 12", unwindset=ch_unwind(12, 1, 1), deps=["oracle_valid_equiv"], mem_gb=40, mem_est=28, timeout=3600),
         H("c14_counts", "c14", [Q, T], "∀ i32 (×3): get_num_cells, cell_area, get_num_children never panic; in-range values follow the hierarchy",
           functions=["a5::core::cell_info::get_num_cells", "a5::core::cell_info::cell_area", "a5::core::cell_info::get_num_children"], bounds="none", exhaustive=True),
         H("c14_uncompact_range", "c14", [Q, T], "∀ u64 × ∀ i32 target with target < res or target ∉ −1..29: uncompact never panics and returns Err",
           functions=["a5::core::compact::uncompact"] + HIER, bounds="one input cell; expansion loops cut (unreachable in this class; unwinding assertions on)", unwindset=ch_unwind(0, 0, 0), mem_gb=16, timeout=1500),
         H("c14_uncompact_args", "c14", [T], "∀ u64 × ∀ i32 target with target ≤ res or target > 29: uncompact never panics; Err ⇔ target<res or target ∉ −1..29",
           functions=["a5::core::compact::uncompact"] + HIER, bounds="one input cell; fan-out ≤ 4", unwindset=ch_unwind(1, 1, 4), mem_gb=24, timeout=1500),
-        H("c14_uncompact_d1", "c14", [T], "∀ u64 with res 1..28, target res+1: Err (non-cell) or 4 canonical cells of the target resolution",
-          functions=["a5::core::compact::uncompact"] + HIER, bounds="one input cell; fan-out 4", unwindset=ch_unwind(1, 1, 4), mem_gb=45, timeout=3600),
         H("c14_compact_any4", "c14", [T], "∀ 4 arbitrary u64 (strictly increasing): compact terminates, no overflow/OOB; Err only if some input is a non-cell",
           functions=["a5::core::compact::compact"] + ORD, bounds="N=4; passes ≤ 2", unwindset=cmp_unwind(4), mem_gb=30, timeout=3600),
         H("c14_compact_r1_clean5", "c14", [Q, T], "∀ 5 IDs with marker at bit 56 and clean low bits, any top-6 code 0..63 (strictly increasing): no overflow in cell + j·stride; Err only if some input is a non-cell",
@@ -422,16 +410,12 @@ PROPERTIES["C09"] = dict(
         H("c07_fanout", "c07", [Q, T], "pre-count formula: get_num_children = ∏ apertures", functions=["a5::core::cell_info::get_num_children"], bounds="c−p ≤ 8"),
         H("c09_world", "c09", [Q, T], "uncompact([world],0) = the 12 base cells in face order, each canonical of resolution 0", functions=UNC,
           bounds="concrete input; fan-out 12 fully unwound", timeout=1500, mem_gb=16, assumes=["get_resolution ↦ res_stub"], deps=["oracle_res_equiv", "oracle_valid_equiv"]),
-        H("c09_base", "c09", [T], "∀ face: uncompact([base],1) = its 5 distinct quintants, each of resolution 1 with the base cell as ancestor", functions=UNC,
-          bounds="fan-out 5; loops 1×5×1", unwindset=ch_unwind(1, 5, 1), timeout=3600, mem_gb=40, mem_est=24, assumes=["get_resolution ↦ res_stub"], deps=["oracle_res_equiv", "oracle_valid_equiv"]),
-        H("c09_single_d1", "c09", [T], "∀ valid cell(1..28): uncompact([c],r+1) = cell_to_children(c,r+1) element-wise, 4 = get_num_children, each child of c; uncompact([c],r−1) Err",
-          functions=UNC, bounds="one input; fan-out 4", unwindset=ch_unwind(1, 1, 4), timeout=5400, mem_gb=45, mem_est=28, assumes=[VALID, "get_resolution ↦ res_stub"], deps=["oracle_res_equiv"]),
     ],
 )
 MANIFEST_TEXT["C09"] = dict(
     level="bounded model checking of the real uncompact over all valid cells × targets with fan-out ≤ 12 per input and lists ≤ 2: equality with cell_to_children element-wise, input order, error iff an input is finer",
     design_ref="DESIGN.md §5 C09",
-    note="symbolic-size Vec allocation makes the one-level expansion a 20+ GB query (thorough tier, run alone); quick tier covers the fan-out-1, error and world/base classes and the pre-count formula",
+    note="the one-level expansion with the *real* callee inside uncompact exceeds 45 GB (symbolic-size Vec allocation) and is not registered; it is covered compositionally: uncompact's own list logic is the real code, its callee cell_to_children is replaced by a contract model proved on the real function (c09_children_same, c07_children_d1) in the same run",
     technique="Kani/CBMC bounded model checking (SAT) of the real uncompact against the real cell_to_children on symbolic cells",
 )
 
